@@ -165,9 +165,6 @@ func (s *Sim) record(r Rec, t *task) {
 	// interleaving signature: who did what where, without values and times
 	s.mixSig(hashString(r.Site) ^ hashString(r.TaskName)<<1 ^ uint64(r.Kind)<<56 ^ uint64(r.Ch)<<48)
 
-	if s.cfg.KeepLog {
-		s.logText = push(s.logText, r.String())
-	}
 }
 
 func (r Rec) String() string {
@@ -190,8 +187,7 @@ func (s *Sim) recordOp(kind Kind, site string, chp uintptr, v any, ok bool, t *t
 	r := Rec{Kind: kind, Site: site, Ok: ok}
 
 	if chp != 0 {
-		r.Ch = s.chanOrd(chp)
-		r.ChName = s.chans[r.Ch-1].name
+		r.Ch = s.chanOrd(chp) // the logical name is filled in at the end of the run
 	}
 
 	if v != nil {
@@ -585,4 +581,40 @@ func SendPick[T any](m *Sel, i int, _ chan<- T) chan<- T {
 	}
 
 	return m.cases[i].priv().(chan T)
+}
+
+// ---------------------------------------------------------------------------------
+// helpers for environment actors
+
+// Won reports which clause of a simulated select won (-1: default).
+func (m *Sel) Won() int { return m.won }
+
+// SendOr sends v on c unless done becomes ready first; it reports whether it sent.
+func SendOr[T any](site string, c chan<- T, v T, done <-chan struct{}) bool {
+	return Select(site, false, SendCase(c, v), RecvCase(done)).won == 0
+}
+
+// RecvOr receives from c unless done becomes ready first.
+func RecvOr[T any](site string, c <-chan T, done <-chan struct{}) (v T, ok bool, got bool) {
+	m := Select(site, false, RecvCase(c), RecvCase(done))
+	if m.won != 0 {
+		return v, false, false
+	}
+
+	v, ok = <-m.cases[0].priv().(chan T)
+
+	return v, ok, true
+}
+
+// SleepOr sleeps d on the simulated clock unless done becomes ready first; it reports
+// whether the full duration elapsed.
+func SleepOr(site string, d time.Duration, done <-chan struct{}) bool {
+	if d <= 0 {
+		return true
+	}
+
+	tm := time.NewTimer(d)
+	defer tm.Stop()
+
+	return Select(site, false, RecvCase(tm.C), RecvCase(done)).won == 0
 }
